@@ -111,7 +111,41 @@ def line_case(case):
     return dict(key=(version, line), nontrivial=want is not None, failures=fails, sample=dict(line=line, version=version, oracle=want, accepted=ok))
 
 
+def doc_case(case):
+    """document-level cross-line rule: `$` only on the last position of the segment (its declared length slen)"""
+    _, seq1, seq2, pair, positions, vlevel = case
+    lines = ["S\tA\t8\t%s" % seq1, "S\tB\t8\t%s" % seq2]
+    p = {"1": ("0", "2"), "2": ("0", "2")}
+    p[pair] = positions
+    el = "E\te\tA+\tB-\t%s\t%s\t%s\t%s\t*" % (p["1"] + p["2"])
+    want = grammar.line_ok(el, "gfa2")
+    fails = []
+    if want is True:
+        for x in positions:
+            if x.endswith("$") and int(x[:-1]) != 8:
+                want = False
+    try:
+        g = gfapy.Gfa(lines + [el], vlevel=vlevel)
+        g.validate()
+        ok = True
+    except gfapy.Error:
+        ok = False
+    except Exception as e:
+        ok = None
+        fails.append(dict(signature="C07:foreign-exception:Gfa:E:%s" % type(e).__name__, what="%r: %s" % (el, harness.short(e, 120)), case=dict(lines=lines + [el], vlevel=vlevel)))
+    seq = seq1 if pair == "1" else seq2
+    if want is False and ok is True:
+        fails.append(dict(signature="C04:doc:E:accepts-invalid:dollar-on-non-last-position:sequence-%s" % ("unknown" if seq == "*" else "known"),
+                          what="%r accepted although segment %s has length 8" % (el, "A" if pair == "1" else "B"), case=dict(lines=lines + [el], vlevel=vlevel),
+                          reproducer="import gfapy\ng = gfapy.Gfa(%r, vlevel=%d); g.validate(); print('accepted')" % (lines + [el], vlevel)))
+    if want is True and ok is False:
+        fails.append(dict(signature="C04:doc:E:rejects-valid", what=repr(el), case=dict(lines=lines + [el], vlevel=vlevel)))
+    return dict(key=case, nontrivial=want is not None, failures=fails, sample=dict(lines=lines + [el], oracle=want, accepted=ok))
+
+
 def check(case):
+    if case[0] == "doc":
+        return doc_case(case)
     return field_case(case) if case[0] == "field" else line_case(case)
 
 
@@ -140,6 +174,13 @@ def cases(tier, seed):
                 ov = ["*" if (ovk == "star" or (ovk == "mixed" and k % 2)) else "1M" for k in range(no)]
                 for vlevel in (1, 2, 3):
                     out.append(("line", "gfa1", "P\tp\t%s\t%s" % (",".join(segs[:ns]), ",".join(ov)), vlevel))
+    # document level: `$` against the length of the segment, for known and unknown sequences of either segment
+    for seq1 in ("*", "ACGTACGT"):
+        for seq2 in ("*", "ACGTACGT"):
+            for pair in "12":
+                for positions in (("0", "8$"), ("0", "5$"), ("8$", "8$"), ("5$", "5$"), ("0", "8"), ("3", "5"), ("0", "9$")):
+                    for vlevel in (1, 2, 3):
+                        out.append(("doc", seq1, seq2, pair, positions, vlevel))
     nmut = 12 if tier == "quick" else 40
     for version in ("gfa1", "gfa2"):
         for i, (text, req) in universe.CAT[version].items():
